@@ -532,27 +532,49 @@ fn run_case(seed: u64, idx: usize, bin: &str, rt: &std::sync::Arc<tokio::runtime
             }
         }
     }
+    // search sanity: the server "keeps serving later requests": a valid Search for a live document's own
+    // vector finds that document (a breaker opened by earlier invalid requests would return nothing)
+    {
+        let live: Vec<(u64, Vec<f32>)> = model.iter().filter(|(_, d)| d.vec.iter().all(|x| x.is_finite()) && d.vec.iter().any(|x| *x != 0.0) && d.vec.iter().all(|x| x.abs() < 1e18)).map(|(i, d)| (*i, d.vec.clone())).take(3).collect();
+        for (id, v) in live {
+            history.push(json!({"rpc":"Search(sanity)","id":id.to_string()}));
+            let r = cl.search(SearchRequest { query_embedding: v.clone(), k: 10, ..Default::default() });
+            answered!("Search(sanity)", r);
+            if let Ok(x) = &r {
+                if !x.results.iter().any(|h| h.doc_id == id) {
+                    viol!("valid-search-no-longer-served", "after the request history a valid Search(k=10) for the stored vector of live document {} returns {:?} (of {} live documents)", id, x.results.iter().map(|h| h.doc_id).collect::<Vec<_>>(), model.len());
+                }
+            }
+        }
+    }
     // concurrent phase: a second connection writes (far-away ids) while this connection sends malformed
     // and valid requests; every one of them must still be answered (a request that wedges the server
     // against a concurrent writer shows as a 60 s deadline = no-answer)
     {
         let stop = std::sync::Arc::new(std::sync::atomic::AtomicBool::new(false));
-        let writer = srv.tenant_client(who).ok().map(|mut c2| {
-            let stop = stop.clone();
-            let mut wr = Rng::derive(seed, idx as u64, 0xC15_2);
-            std::thread::spawn(move || {
-                let mut n = 0u64;
-                while !stop.load(std::sync::atomic::Ordering::SeqCst) && n < 4000 {
-                    let v = gen_unit_vec(&mut wr, DIM);
-                    let _ = c2.insert(3_000_000 + n % 16, v, HashMap::new(), "");
-                    n += 1;
-                }
-                n
+        let writers: Vec<_> = (0..1u64)
+            .filter_map(|wi| {
+                srv.tenant_client(who).ok().map(|mut c2| {
+                    let stop = stop.clone();
+                    let mut wr = Rng::derive(seed, idx as u64, 0xC15_2 + wi);
+                    std::thread::spawn(move || {
+                        let mut n = 0u64;
+                        while !stop.load(std::sync::atomic::Ordering::SeqCst) && n < 3000 {
+                            let v = gen_unit_vec(&mut wr, DIM);
+                            let _ = c2.insert(3_000_000 + wi * 100 + n % 16, v, HashMap::new(), "");
+                            n += 1;
+                        }
+                        n
+                    })
+                })
             })
-        });
+            .collect();
         let shapes = enum_filter_shapes();
+        // shapes that contain a NOT without operand (they take the engine's scan fallback) are used for the
+        // batch deletes of this phase; the other requests rotate through all shapes
+        let not_none: Vec<MetadataFilter> = shapes.iter().filter(|f| format!("{:?}", f).contains("NotFilter { filter: None }")).cloned().collect();
         for w in 0..30usize {
-            let f = shapes[(idx * 31 + w * 7) % shapes.len()].clone();
+            let f = if w % 3 == 0 && !not_none.is_empty() { not_none[(idx * 5 + w) % not_none.len()].clone() } else { shapes[(idx * 31 + w * 7) % shapes.len()].clone() };
             history.push(json!({"rpc":"concurrent-phase","w":w,"shape":format!("{:?}", f).chars().take(160).collect::<String>()}));
             match w % 3 {
                 0 => {
@@ -587,7 +609,7 @@ fn run_case(seed: u64, idx: usize, bin: &str, rt: &std::sync::Arc<tokio::runtime
             }
         }
         stop.store(true, std::sync::atomic::Ordering::SeqCst);
-        if let Some(h) = writer {
+        for h in writers {
             let _ = h.join();
         }
         // metadata merges above: re-learn the tags of live model documents from the server (content of
@@ -599,21 +621,6 @@ fn run_case(seed: u64, idx: usize, bin: &str, rt: &std::sync::Arc<tokio::runtime
                     if let Some(d) = model.get_mut(&i) {
                         d.meta = q.metadata.iter().filter(|(k, _)| !k.starts_with("__")).map(|(k, v)| (k.clone(), v.clone())).collect();
                     }
-                }
-            }
-        }
-    }
-    // search sanity: the server "keeps serving later requests": a valid Search for a live document's own
-    // vector finds that document (a breaker opened by earlier invalid requests would return nothing)
-    {
-        let live: Vec<(u64, Vec<f32>)> = model.iter().filter(|(_, d)| d.vec.iter().all(|x| x.is_finite()) && d.vec.iter().any(|x| *x != 0.0) && d.vec.iter().all(|x| x.abs() < 1e18)).map(|(i, d)| (*i, d.vec.clone())).take(3).collect();
-        for (id, v) in live {
-            history.push(json!({"rpc":"Search(sanity)","id":id.to_string()}));
-            let r = cl.search(SearchRequest { query_embedding: v.clone(), k: 10, ..Default::default() });
-            answered!("Search(sanity)", r);
-            if let Ok(x) = &r {
-                if !x.results.iter().any(|h| h.doc_id == id) {
-                    viol!("valid-search-no-longer-served", "after the request history a valid Search(k=10) for the stored vector of live document {} returns {:?} (of {} live documents)", id, x.results.iter().map(|h| h.doc_id).collect::<Vec<_>>(), model.len());
                 }
             }
         }
